@@ -481,7 +481,7 @@ func run(r *mc.Run) {
 	r.Assume("a snapshot is what the master's VolumeList would return for a cluster in which no server holds more volumes of a disk type than its max count; volume sizes are distinct per volume (the planners' size sort is then a total order)")
 	r.Assume("free capacity of a server for a disk type = max volume count - volumes of that type on it (no EC shards, no remote volumes in these snapshots)")
 	r.Assume("a replica set satisfies placement xyz iff it has x+y+z+1 distinct servers, one main data center with y+z+1 of them, x other data centers with one each, and inside the main data center one main rack with z+1 and y other racks with one each")
-	r.Assume("Go map iteration order inside the planners is not enumerated; a reported plan must reproduce within 50 re-plans of the same snapshot")
+	r.Assume("Go map iteration order inside the planners is not enumerated; a reported plan must reproduce within 200 re-plans of the same snapshot")
 	cp := newCapture()
 	debug.SetGCPercent(400)
 	if r.Replay != "" {
@@ -567,8 +567,8 @@ func oneCounted(r *mc.Run, cp *capture, c *Case, seen map[string]int) {
 	r.Add("violating_cases", 1)
 	cc := *c
 	r.Violate(class, msg, cc, func() bool {
-		// the planners walk Go maps; the same plan must come back within 50 re-plans
-		for i := 0; i < 50; i++ {
+		// the planners walk Go maps; the same plan must come back within 200 re-plans
+		for i := 0; i < 200; i++ {
 			c2, _, _ := evaluate(cp, &cc)
 			if c2 == clause {
 				return true
